@@ -148,6 +148,34 @@ let () =
                   | PItems its -> print_endline (id ^ "\tok:" ^ enc (render maxc cap its))
                   | PInvalid -> print_endline (id ^ "\tinvalid")
                   | PFuel -> print_endline (id ^ "\tfuel"))
+             | id :: "match" :: dialect :: flags :: pattern :: input :: _ ->
+                 (* the specification's view of (dialect, flags, pattern) on one input *)
+                 let b = Buffer.create 128 in
+                 Buffer.add_string b id;
+                 (match spec_compile (dialect = "xpath") (dec flags) (dec pattern) with
+                  | Invalid -> Buffer.add_string b "\tV=invalid"
+                  | Unspecified -> Buffer.add_string b "\tV=unspec"
+                  | Valid (fl, r) ->
+                      let ng = int_of_nat (count_groups r) in
+                      let bf = not (has_backref r) and bok = bounds_ok r in
+                      Buffer.add_string b (Printf.sprintf "\tV=valid\tbf=%d\tbok=%d\tstrict=%d\tng=%d"
+                        (if bf then 1 else 0) (if bok then 1 else 0) (if strict_ok r then 1 else 0) ng);
+                      if bok then begin
+                        let inp = dec input in
+                        Buffer.add_string b (Printf.sprintf "\tnullable=%d" (if spec_nullable fl r then 1 else 0));
+                        if bf then
+                          Buffer.add_string b (Printf.sprintf "\tL=%d" (if spec_is_match fl inp r then 1 else 0));
+                        Buffer.add_string b (Printf.sprintf "\tRM=%d" (if spec_is_match_R fl inp r then 1 else 0));
+                        let spans = spec_spans fl inp r in
+                        let sp = List.map (fun ((i, j), e) ->
+                          let gs = List.init ng (fun g ->
+                            match lookup (nat_of_int (g + 1)) e with
+                            | Some (a, z) -> Printf.sprintf "%d-%d" (int_of_nat a) (int_of_nat z)
+                            | None -> "~") in
+                          Printf.sprintf "%d-%d:%s" (int_of_nat i) (int_of_nat j) (String.concat "," gs)) spans in
+                        Buffer.add_string b ("\tSP=" ^ String.concat ";" sp)
+                      end);
+                 print_endline (Buffer.contents b)
              | id :: fn :: _ -> print_endline (id ^ "\tunknown-fn:" ^ fn)
              | _ -> failwith "bad spec line"
            end
